@@ -21,6 +21,8 @@ def units(tier):
     t = 900 if big else 300
     return [
         H("C15", M, "check_partial_fidelity", t, [R + "_reduce_partial", R + "_rebuild_partial"], "args: tuple of <=3 unbounded ints, keywords: any subset of {a, key} with unbounded int values (incl. empty)"),
+        H("C15", M, "check_partial_roundtrip_variants", t, [R + "_reduce_partial", R + "_rebuild_partial", R + "dumps"],
+          "partial with/without keywords x with/without instance attributes x 2 back-ends"),
         H("C15", M, "check_method_fidelity", t, [R + "_reduce_method", R + "_reduce_method_descriptor"], "bound method / classmethod / list.append / int.__add__"),
         H("C15", M, "check_roundtrip_backends", t, [R + "dumps", R + "set_loky_pickler"], "2 back-ends x 5 exemplar kinds"),
         H("C15", M, "check_scoping_3" if big else "check_scoping_2", 2400 if big else 600, [R + "set_loky_pickler", R + "dumps"],
